@@ -221,6 +221,25 @@ Definition do_exec (s : state) (cbs : list script) : option (state * N) :=
 Definition next_in (s : state) (now : N) : N :=
   match peek s with Some e => enext e - now | None => 0 end.
 
+(* the same value with the subtraction done in Z, to state that it is never negative *)
+Definition next_in_z (s : state) (now : N) : Z :=
+  match peek s with Some e => (Z.of_N (enext e) - Z.of_N now)%Z | None => 0%Z end.
+
+(* One idle iteration of EPoller::Poll / SelectPoller::Poll as far as timers are concerned: run the due
+   timers, sleep min(time to the next timer, poll interval) - EPoller passes InMilliSeconds() to epoll_wait,
+   i.e. the sleep truncated to whole milliseconds, SelectPoller the exact timeval - then read the clock
+   AGAIN (m_wake_up_time) and run the timers that are due at that time. *)
+Definition poll_sleep (epoll : bool) (s : state) (now b : N) : N :=
+  let sl := match peek s with Some e => N.min (enext e - now) b | None => b end in
+  if epoll then (sl / 1000) * 1000 else sl.
+Definition poll_once (epoll : bool) (s : state) (b : N) (cbs1 cbs2 : list script) : option state :=
+  match do_exec s cbs1 with
+  | None => None
+  | Some (s1, now1) =>
+      let s2 := do_advance s1 (poll_sleep epoll s1 now1 b) in
+      match do_exec s2 cbs2 with Some (s3, _) => Some s3 | None => None end
+  end.
+
 Inductive op :=
 | OReg (rep : bool) (iv h : N)
 | OCancel (h : N)
@@ -248,8 +267,8 @@ End Model.
 Definition ms_to_us (ms : N) : N := (ms / 1000) * 1000000 + (ms mod 1000 * 1000).
 
 (* ------------------------------------------------------------------ the harness's choice functions *)
-Definition pool_size : N := 16.
-Definition pool_slots : list N := map N.of_nat (seq 1 16).
+Definition pool_size : N := 128.
+Definition pool_slots : list N := map N.of_nat (seq 1 128).
 Definition pool_alloc (live : list N) (h : N) : N :=
   let free := filter (fun i => negb (mem i live)) pool_slots in
   match free with
